@@ -51,8 +51,9 @@ SPEC = {
             "engine/specialUse/exclusive labels, label KEYS sometimes capitalised or upper-case (Zone / ZONE); options: max-replicas 1-5, 0-3 location labels, isolation level, "
             "low-space ratio, limits, reject-leader property (0-3 entries, also several on one key), feature switches, joint consensus on/off; one region "
             "of 1-6 peers with learners, leader, down and pending lists; 0-4 placement rules) + `filters` (every "
-            "filter's verdict on every store) + `check replica` + `check ctl` (CheckerController.CheckRegion) + `check rule` "
-            "+ `check ctl` with placement rules on, sometimes repeated after degrading a "
+            "filter's verdict on every store) + `check replica` + `check ctl` (CheckerController.CheckRegion) + `check ctlx` "
+            "(the controller is created in the other placement-rules mode and the mode is switched online before the "
+            "call) + `check rule` + `check ctl` + `check ctlx` with placement rules on, sometimes repeated after degrading a "
             "store; every fourth stream is the malformed stream (unknown stores, joint-state roles, learner or "
             "missing leader, isolation level that is not a location label, tiny clusters); non-trivial = some "
             "checker proposed an operator that adds or removes a peer; distinct = distinct op sequence",
